@@ -36,6 +36,14 @@ MUTANTS = {
     "m-c04-corner": ("ceos_alos2/sar_leader/map_projection.py", 'coordinate = ["top_left", "top_right", "bottom_right", "bottom_left"]', 'coordinate = ["top_left", "top_right", "bottom_left", "bottom_right"]', ["C04"]),
     "m-c06-lastchunk": ("ceos_alos2/sar_image/io.py", "if records_per_chunk * (index + 1) <= n_records", "if records_per_chunk * (index + 1) < n_records", ["C06", "C01", "C18"]),
     "m-c06-norm": ("ceos_alos2/array.py", "if chunksize in (None, -1) or chunksize > dim_size:", "if chunksize in (None, -1) or chunksize >= dim_size - 1:", ["C06"]),
+    "m-c19-sharedhandle": [
+        ("ceos_alos2/array.py", '        with self.fs.open(self.url, mode="rb") as f:\n', '        f = _HANDLES.setdefault(self.url, None) or _HANDLES.__setitem__(self.url, self.fs.open(self.url, mode="rb")) or _HANDLES[self.url]\n        if True:\n'),
+        ("ceos_alos2/array.py", 'raw_dtypes = {', '_HANDLES = {}\nraw_dtypes = {'),
+        ("ceos_alos2/xarray.py", "        with self.lock:\n            return self.array[key]", "        return self.array[key]"),
+        ["C19"],
+    ],
+    "m-c19-nolock-only": [("ceos_alos2/xarray.py", "        with self.lock:\n            return self.array[key]", "        return self.array[key]"), []],
+    "m-c19-lockleak": [("ceos_alos2/xarray.py", "        with self.lock:\n            return self.array[key]", "        self.lock.acquire()\n        result = self.array[key]\n        if key and isinstance(key[0], int):\n            return result\n        self.lock.release()\n        return result"), ["C19"]],
     "m-c12-dtype": ("ceos_alos2/xarray.py", "self.dtype = np.dtype(array.dtype)", "self.dtype = array.dtype", ["C12"]),
 }
 
@@ -48,22 +56,27 @@ def baseline_counts(repo):
 
 
 def run_mutant(mid, suite=True, checks=None, tier="quick"):
-    file, old, new, props = MUTANTS[mid]
+    spec = MUTANTS[mid]
+    if isinstance(spec, tuple):
+        edits, props = [spec[:3]], spec[3]
+    else:
+        edits, props = list(spec[:-1]), spec[-1]
     scratch = pathlib.Path(tempfile.mkdtemp(prefix="vfmut-"))
     repo = scratch / "repo"
     try:
         shutil.copytree("/repo", repo, ignore=shutil.ignore_patterns(".git", "__pycache__", "*.egg-info"))
-        path = repo / file
-        text = path.read_text()
-        if old not in text:
-            return {"mutant": mid, "error": "pattern not found"}
-        path.write_text(text.replace(old, new, 1))
+        for file, old, new in edits:
+            path = repo / file
+            text = path.read_text()
+            if old not in text:
+                return {"mutant": mid, "error": f"pattern not found in {file}"}
+            path.write_text(text.replace(old, new, 1))
         result = {"mutant": mid, "expected": props}
         if suite:
             ok, tail = baseline_counts(repo)
             result["suite_passes"] = ok
             result["suite"] = tail
-        for pid in checks or props:
+        for pid in checks or props or [p for p in sys.argv if p.startswith("C") and len(p) == 3]:
             env = dict(os.environ, VERIF_REPO=str(repo))
             r = subprocess.run([str(VERIF / "check"), pid, "--tier", tier], capture_output=True, text=True, env=env, cwd=VERIF)
             result[pid] = {"exit": r.returncode, "violation": "VIOLATION" in r.stdout,
